@@ -21,4 +21,9 @@ for P in $(echo $PROPS | tr , ' '); do
   T=$(grep -o '[0-9.]*s$' "$W/check.$P.log" | tail -1)
   case $RC in 0) R=missed;; 1) R=CAUGHT;; *) R="inconclusive(rc=$RC) $(tail -2 $W/check.$P.log | tr '\n' ' ' | cut -c1-200)";; esac
   echo "MUTANT $(basename $PATCH) suite=$SUITE check=$P $R $T :: $MSG"
+  # KEEP_REPLAYS=<dir>: keep the replay file(s) of a caught mutant (used to build the regression corpus)
+  if [ -n "${KEEP_REPLAYS:-}" ] && [ $RC -eq 1 ]; then
+    mkdir -p "$KEEP_REPLAYS/$P"
+    for f in "$W"/replays/$P-*.json; do [ -f "$f" ] && cp "$f" "$KEEP_REPLAYS/$P/$(basename "$(dirname "$PATCH")")-$(basename "$PATCH" .patch | sed 's/\.diff$//')-$(basename "$f")"; done
+  fi
 done
